@@ -294,6 +294,9 @@ func kfArrayFor(args []KeyBuilderStage) (KeyBuilderStage, error) {
 
 		sub := subContextPool.Get()
 		defer subContextPool.Return(sub)
+		*sub = subContext{
+			parent: context,
+		}
 
 		var sb strings.Builder
 
